@@ -193,7 +193,9 @@ func parseContractFile(path string, pkgPath string, pc *PkgContracts) error {
 			}
 			for _, it := range splitTop(rest, ',') {
 				it = strings.TrimSpace(it)
-				if it != "" {
+				if strings.HasPrefix(it, "heap(") && strings.HasSuffix(it, ")") {
+					cur.Preserves = append(cur.Preserves, &Clause{Kind: "preserves", Text: it, RawMod: "heap:" + it[5:len(it)-1], File: path, Line: i + 1})
+				} else if it != "" {
 					cur.Preserves = append(cur.Preserves, &Clause{Kind: "preserves", Text: it, RawMod: "type:" + it, File: path, Line: i + 1})
 				}
 			}
